@@ -97,8 +97,30 @@ let c17 f =
     Printf.sprintf "%s %s %s %s %s %s" (eout_s r) (dec_of_z rla) (dec_of_z rlb) spec_s (tree_s ta) (tree_s tb)
   | _ -> "bad-case"
 
+let c18 f =
+  match f with
+  | [_kind; _group; _arena; t; d; segs; asel] ->
+    let m = segs_of segs in
+    let s = sel_of asel in
+    let fx = { cx_complist = fixed; cx_bitpad = fixed; cx_rd = rdfix } in
+    let res = match run_canon (nat_of_int 200) (cfg t d) fx m s with
+      | KOk bs -> "ok:" ^ hex_of_bytes bs
+      | KErr -> "E" | KPanic -> "panic" | KFuel -> "fuel" in
+    let (spec, tr) = spec_canon wfuel (cfg gen_T "0") rdfix m s dcap pcap in
+    let spec_s, flags = match spec with
+      | None -> "-", "-"
+      | Some None -> "cap", "-"
+      | Some (Some bs) ->
+        "ok:" ^ hex_of_bytes bs,
+        (match spec_recanon bs with
+         | Some bs' when bs' = bs -> "R1I1G1P1"
+         | _ -> "R1I1G1P0") in
+    Printf.sprintf "%s %s %s %s" res spec_s flags (tree_s tr)
+  | _ -> "bad-case"
+
 let () = iter_lines (fun line ->
   let f = split_ws line in
   print_endline (match mode with
     | "c17" -> c17 f
+    | "c18" -> c18 f
     | _ -> "bad-mode"))
